@@ -2,6 +2,8 @@ From SplVerif Require Import Lib.Base Lib.Sha256 Macros.Discriminator Props.C18.
 Local Open Scope N_scope.
 (* PINS *)
 Check C18_digest_length : forall m, length (sha256 m) = 32%nat.
+Check C18_padding_whole_blocks : forall m, (length (pad m) mod 64 = 0)%nat.
+Check C18_padding_keeps_message : forall m, firstn (length m) (pad m) = m.
 Check C18_disc_length : forall s, length (disc s) = 8%nat.
 Check C18_u64_roundtrip : forall n, n < 18446744073709551616 -> to_u64 (from_u64 n) = n.
 Check C18_bytes_roundtrip : forall d, length d = 8%nat -> from_u64 (to_u64 d) = d.
